@@ -55,4 +55,64 @@ theorem c02_gen_verify_uses_Equal (nodes : List Node) (m : Msg) (p : Nat) (hp : 
   | some n =>
     simp only [hp, Option.bind_some, c02_gen_Equal_keys]
     by_cases h : n.server = p <;> simp [h]
+
+/-! ### the two decisions of `createValueAndVerify` (extracted, form `rich`): `tn == nil` and
+`msg.ServerIdentity != nil && tn != nil && !tn.ServerIdentity.Equal(msg.ServerIdentity)` -/
+
+/-- a node of the model as the translated code sees the result of `Tree.Search` -/
+def nodeOf (n : Node) : Gen.C02.TreeNode := { ServerIdentity := identOf n.server }
+
+/-- the message of the model as the translated code sees it: only the identity the transport attached -/
+def pmsgOf (m : Msg) : Gen.C02.ProtocolMsg := { ServerIdentity := m.peer.bind identOf }
+
+/-- the first guard fires exactly when `Tree.Search` found nothing -/
+theorem c02_gen_unknownSender (tn : Option Gen.C02.TreeNode) :
+    Gen.C02.createValueAndVerify_unknownSender tn = tn.isNone := by
+  cases tn <;> rfl
+
+/-- **the comparison never panics**: `tn.ServerIdentity` is read behind `tn != nil`, the message's identity behind
+its own nil test, and `Equal` is total — whatever node and whatever identity (also none, also keyless) -/
+theorem c02_gen_wrongPeer_total (tn : Option Gen.C02.TreeNode) (m : Gen.C02.ProtocolMsg) :
+    ∃ r, Gen.C02.createValueAndVerify_wrongPeer tn (some m) = some r := by
+  unfold Gen.C02.createValueAndVerify_wrongPeer
+  obtain ⟨mi⟩ := m
+  cases tn with
+  | none => cases mi <;> exact ⟨_, rfl⟩
+  | some n =>
+    obtain ⟨ni⟩ := n
+    cases mi with
+    | none => exact ⟨_, rfl⟩
+    | some x =>
+      obtain ⟨r, hr⟩ := c02_gen_Equal_total ni (some x)
+      simp only [Option.isNone_some, Bool.not_false, Bool.and_self, if_true, hr]
+      cases r <;> exact ⟨_, rfl⟩
+
+/-- on the model's nodes and messages: the second guard fires exactly when the transport named a peer and the
+claimed node is hosted by another server -/
+theorem c02_gen_wrongPeer_model (n : Node) (m : Msg) :
+    Gen.C02.createValueAndVerify_wrongPeer (some (nodeOf n)) (some (pmsgOf m)) =
+      some (match m.peer with | none => false | some p => !(n.server == p)) := by
+  unfold Gen.C02.createValueAndVerify_wrongPeer
+  cases hp : m.peer with
+  | none => simp [pmsgOf, hp]
+  | some p =>
+    simp only [pmsgOf, hp, Option.bind_some, nodeOf]
+    simp [identOf, Gen.C02.ServerIdentity_Equal]
+    by_cases h : n.server = p <;> simp [h]
+
+/-- **`verify` of the model is exactly the two translated guards**, in the order of the source: refuse when
+`Search` found nothing, refuse when the second guard fires, else the node found -/
+theorem c02_gen_verify_is_the_guards (nodes : List Node) (m : Msg) :
+    verify nodes m =
+      if Gen.C02.createValueAndVerify_unknownSender ((search nodes m.sender).map nodeOf) then none
+      else (search nodes m.sender).bind fun n =>
+        if Gen.C02.createValueAndVerify_wrongPeer (some (nodeOf n)) (some (pmsgOf m)) = some true then none else some n := by
+  unfold verify
+  cases hs : search nodes m.sender with
+  | none => simp [c02_gen_unknownSender]
+  | some n =>
+    simp only [c02_gen_unknownSender, Option.map_some, Option.isNone_some, Option.bind_some, c02_gen_wrongPeer_model]
+    cases hp : m.peer with
+    | none => simp
+    | some p => by_cases h : n.server = p <;> simp [h]
 end C02
